@@ -48,7 +48,7 @@ PYT = [f"{p}{x}{y}" for p in ("cp", "py", "pp", "pt") for x in (2, 3) for y in r
 def abis_for(py):
     out = ["none", "abi3"]
     if py.startswith("cp") and len(py) > 3:
-        out += [py, py + "m", py + "t", py + "d", py + "u", py + "dt", py + "mu"]
+        out += [py, py + "m", py + "t", py + "d", py + "u", py + "td", py + "dm", py + "mu"]
         out += ["cp39", "cp310", "cp313t", "cp38m", "cp3", py[:-1] or py, py + "0", py + "2", py + "2t", py + "0m"]
     if py.startswith("pp"):
         out += [f"pypy{py[2:]}_pp73", "pypy39_pp73", "pypy_73", f"pypy{py[2:]}0_pp73"]
